@@ -415,7 +415,22 @@ func racePass(c *core.Ctx) {
 		c.Internal("race binary missing: %v", err)
 		return
 	}
-	cmd := exec.Command(bin, "worker", "c20race")
+	// cold starts first: fresh processes whose first use of the package is concurrent
+	colds := [][]string{{"worker", "c20cold", "mixed"}, {"worker", "c20cold", "pluralize"}, {"worker", "c20cold", "singularize"}}
+	reps := c.Pick(3, 12)
+	c.Bound("race_pass_cold_start_processes", len(colds)*reps)
+	for i := 0; i < reps; i++ {
+		for _, a := range colds {
+			if !raceRun(c, bin, a...) {
+				return
+			}
+		}
+	}
+	raceRun(c, bin, "worker", "c20race")
+}
+
+func raceRun(c *core.Ctx, bin string, args ...string) bool {
+	cmd := exec.Command(bin, args...)
 	cmd.Env = append(os.Environ(), "GORACE=halt_on_error=1 exitcode=66", "GOMAXPROCS=8")
 	out, err := cmd.CombinedOutput()
 	c.Count("race_pass_runs", 1)
@@ -424,15 +439,17 @@ func racePass(c *core.Ctx) {
 			_ = os.MkdirAll(filepath.Join(core.Root(), "replays"), 0o755)
 			rp := filepath.Join(core.Root(), "replays", "C20-race-report.txt")
 			_ = os.WriteFile(rp, out, 0o644)
-			c.Fail("", Case{S: "free-running -race pass"}, "data race reported by the race detector with concurrent callers (report in %s):\n%s", rp, tail(string(out), 1500))
-			return
+			c.Fail("", Case{S: "free-running -race pass"}, "data race reported by the race detector with concurrent callers %v (report in %s):\n%s", args, rp, tail(string(out), 1500))
+			return false
 		}
-		if ee, ok := err.(*exec.ExitError); ok && ee.ExitCode() == 1 {
-			c.Fail("", Case{S: "free-running -race pass"}, "concurrent callers observed a wrong result:\n%s", tail(string(out), 1500))
-			return
+		if ee, ok := err.(*exec.ExitError); ok && (ee.ExitCode() == 1 || ee.ExitCode() == 2) {
+			c.Fail("", Case{S: "free-running -race pass"}, "concurrent callers %v observed a wrong result or panicked:\n%s", args, tail(string(out), 1500))
+			return false
 		}
 		c.Internal("race pass failed to run: %v\n%s", err, tail(string(out), 800))
+		return false
 	}
+	return true
 }
 
 func tail(s string, n int) string {
@@ -604,7 +621,7 @@ func init() {
 	core.RegisterWorker("c20seq", seqWorker)
 	core.Register(&core.Prop{
 		ID: "C20", Level: "model_checking", Run: run, Replay: replay,
-		Rule: "sequential: every irregular word (both columns of both rules, read from the tree) x 3 cases x 10 prefixes x both functions with the prefix-preservation oracle, every uninflected pattern instance likewise (totality/purity), folding-sensitive variants (U+017F, U+212A) of every irregular word, all strings <=3 (4) over a 10-symbol alphabet, all fresh-process call sequences of length 2 (3) over 8 (function,input) pairs; concurrent: ALL interleavings at the hooked sync.Map/OnceValue operations of 7 caller scenarios (2-3 goroutines x 1-2 calls, cold and pre-warmed caches; the 3x2 scenario with deviation bound 3), every return compared with the sequential reference, deadlock = violation; complement: free-running -race pass. Non-trivial = prefixed inputs, sequences, schedules; states = distinct schedules (by trace) and outcome classes",
+		Rule: "sequential: every irregular word (both columns of both rules, read from the tree) x 3 cases x 10 prefixes x both functions with the prefix-preservation oracle, every uninflected pattern instance likewise (totality/purity), folding-sensitive variants (U+017F, U+212A) of every irregular word, all strings <=3 (4) over a 10-symbol alphabet, all fresh-process call sequences of length 2 (3) over 8 (function,input) pairs; concurrent: ALL interleavings at the hooked sync.Map/OnceValue operations of 7 caller scenarios (2-3 goroutines x 1-2 calls, cold and pre-warmed caches; the 3x2 scenario with deviation bound 3), every return compared with the sequential reference, deadlock = violation; complement: free-running -race pass (cold starts: fresh processes whose first use of the package is made by 16 goroutines at once; then 200 rounds of 8 warm callers). Non-trivial = prefixed inputs, sequences, schedules; states = distinct schedules (by trace) and outcome classes",
 		Assumptions: []string{
 			"scheduling points are the sync operations of pkg/inflector (rewritten to the zzsync shim by overlay); unsynchronised accesses are the race pass' job",
 			"prefixes end in an ASCII non-word character (the statement's 'word boundary'); a non-ASCII letter glued to the word is outside the alphabet",
